@@ -152,3 +152,26 @@ def observe (handlers : List Exc) (r : PyM Int) : NumObs :=
   | .ok z => .val z
   | .error c => if c ∈ handlers then .err else .escapes c
 end Cel
+
+namespace Cel
+/-! ### arithmetic expression trees over int64 (every intermediate result is range-checked) -/
+inductive AOp | add | sub | mul | div | mod
+  deriving DecidableEq, Repr
+
+inductive AExpr where
+  | lit (z : Int)                    -- a literal or bound variable holding this value
+  | neg (a : AExpr)
+  | bin (op : AOp) (a b : AExpr)
+  deriving Repr
+
+def IntOps.bin : AOp → Int → Int → PyM Int
+  | .add => IntOps.add | .sub => IntOps.sub | .mul => IntOps.mul
+  | .div => IntOps.truediv | .mod => IntOps.mod
+
+/-- Both runners: operands are evaluated, then the dunder is applied; an erroneous operand makes the
+node an error (interpreter: `CELEvalError.__add__` returns the error; compiled: the exception propagates). -/
+def evalA : AExpr → PyM Int
+  | .lit z => .ok z
+  | .neg a => evalA a >>= IntOps.neg
+  | .bin op a b => do let x ← evalA a; let y ← evalA b; IntOps.bin op x y
+end Cel
